@@ -61,13 +61,39 @@ Definition capit (caps : list dy) (i : nat) (r : Q * Q) : Q * Q :=
 Definition qmin (a b : Q) : Q := if Qltb b a then b else a.
 
 (* ---------- the direct oracle ---------- *)
+(* "the ray crosses the box within the range", stated independently of the sequential slab code: the
+   set of parameters t with  lo < t < hi  and, on every axis, the point o + t*d strictly inside the
+   (kEpsilon-inflated) slab — or, for a zero direction component, the origin inside the closed slab —
+   is an open interval (max of the lower ends, min of the upper ends); the ray crosses iff it is
+   non-empty. *)
+Definition axis_iv (o d bl bh : Q) : option (option (Q * Q)) :=      (* None: no t at all; Some None: every t *)
+  match Qcompare d 0 with
+  | Eq => if Qle_bool bl o && Qle_bool o bh then Some None else None
+  | Lt => Some (Some ((bh - o) / d, (bl - o) / d))
+  | Gt => Some (Some ((bl - o) / d, (bh - o) / d))
+  end%Q.
+Definition qmax (a b : Q) : Q := if Qltb a b then b else a.
+Definition narrow (r : Q * Q) (iv : option (Q * Q)) : Q * Q :=
+  match iv with Some (a, b) => (qmax (fst r) a, (if Qltb b (snd r) then b else snd r)) | None => r end.
+Definition ray_spec (b : box) (ry : ray) (r : Q * Q) : bool :=
+  let '(o, (dx, dy, dz)) := ry in
+  match axis_iv (q4 (px o)) dx (q4 (px (bmin b)) - keps) (q4 (px (bmax b)) + keps),
+        axis_iv (q4 (py o)) dy (q4 (py (bmin b)) - keps) (q4 (py (bmax b)) + keps),
+        axis_iv (q4 (pz o)) dz (q4 (pz (bmin b)) - keps) (q4 (pz (bmax b)) + keps) with
+  | Some ix, Some iy, Some iz =>
+      let r' := narrow (narrow (narrow r ix) iy) iz in Qltb (fst r') (snd r')
+  | _, _, _ => false
+  end%Q.
+
 Definition qprop (boxes : list box) (q : query) : bool :=
   let n := length boxes in
   match q with
   | QContain p res => same_set res (idxs_where (map (inb p) boxes))
   | QWithin p d res => same_set res (idxs_where (map (fun b => negb (far b p d)) boxes))
-  | QRay _ _ _ _ elhit res trav =>
-      Nat.eqb (length elhit) n && same_set res (idxs_where elhit) && same_set trav (idxs_where elhit)
+  | QRay o dir lo hi elhit res trav =>
+      Nat.eqb (length elhit) n && same_set res (idxs_where elhit) && same_set trav (idxs_where elhit) &&
+      (* the per-element bounds test itself means "the ray crosses the box" *)
+      list_eqb Bool.eqb (map (fun b => ray_spec b (mkray o dir) (dyq lo, dyq hi)) boxes) elhit
   | QTrav _ _ _ _ _ hit_hi hit_lo res =>
       Nat.eqb (length hit_hi) n && Nat.eqb (length hit_lo) n &&
       strictly_inc (NatSort.sort res) &&
